@@ -155,7 +155,7 @@ def crossStep (rd : RegionData) (L regionLen : Int) (f : BioFeature) : E (BioFea
     match offsetLocation f.loc (-rd.start) L with
     | .error e => .error e
     | .ok location =>
-      if (wholeFix L location).end > regionLen then .ok (f, none)
+      if (wholeFix L location).end > regionLen || bridgesOrigin (wholeFix L location) then .ok (f, none)
       else .ok ({ f with loc := wholeFix L location }, some { f with loc := wholeFix L location })
   else .ok (f, none)
 
@@ -218,12 +218,12 @@ def adjustMotif (q : Quals) (rd : RegionData) (L : Int) : E Quals := do
   pure { q with leaderLoc := leader, tailLoc := tail }
 
 /-- `_adjust_protocluster` -/
-def adjustProtocluster (f : BioFeature) (p : ProtoArea) (rd : RegionData) (newNumber L : Int) : E BioFeature := do
-  let q ← if f.type == "protocluster" then do
-      let newLoc ← offsetLocation p.core (-rd.start) L
-      pure { f.q with coreLoc := some (locToString newLoc) }
-    else pure f.q
-  pure { f with q := { q with protoNumber := some newNumber } }
+def adjustProtocluster (f : BioFeature) (p : ProtoArea) (rd : RegionData) (newNumber L : Int) : E BioFeature :=
+  if f.type == "protocluster" then
+    match offsetLocation p.core (-rd.start) L with
+    | .error e => .error e
+    | .ok newLoc => .ok { f with q := { f.q with coreLoc := some (locToString newLoc), protoNumber := some newNumber } }
+  else .ok { f with q := { f.q with protoNumber := some newNumber } }
 
 /-- Python `d[k] = v` on an insertion-ordered dict -/
 def dictSet {α} (d : List (Int × α)) (k : Int) (v : α) : List (Int × α) :=
@@ -292,38 +292,54 @@ def renumbering (rd : RegionData) (L : Int) : Renumbering :=
     cands := numberByPosition (candDict rd) rd L,
     subs := numberByPosition (subDict rd) rd L }
 
+/-- `[str(new[int(num)]) for num in numbers]` guarded by `if numbers:` -/
+def renumberList (d : List (Int × Int)) (xs : List Int) : E (List Int) :=
+  if xs.isEmpty then .ok xs else mapE (dictGet d) xs
+
 /-- the body of the loop of `_adjust_features` for one feature -/
 def adjustFeature (rd : RegionData) (L : Int) (rn : Renumbering) (f : BioFeature) : E BioFeature :=
-  if f.type == "region" then do
-    let cands ← if f.q.candNumbers.isEmpty then pure f.q.candNumbers else mapE (dictGet rn.cands) f.q.candNumbers
-    let subs ← if f.q.subNumbers.isEmpty then pure f.q.subNumbers else mapE (dictGet rn.subs) f.q.subNumbers
-    pure { f with q := { f.q with candNumbers := cands, subNumbers := subs } }
-  else if f.type == "cand_cluster" then do
+  if f.type == "region" then
+    match renumberList rn.cands f.q.candNumbers with
+    | .error e => .error e
+    | .ok cands =>
+      match renumberList rn.subs f.q.subNumbers with
+      | .error e => .error e
+      | .ok subs => .ok { f with q := { f.q with candNumbers := cands, subNumbers := subs } }
+  else if f.type == "cand_cluster" then
     match f.q.candNumber with
-    | none => throw "KeyError"
+    | none => .error "KeyError"
     | some n =>
-      let new ← dictGet rn.cands n
-      match f.q.protoNumbers with
-      | none => throw "KeyError"
-      | some ps =>
-        let newPs ← mapE (dictGet rn.protos) ps
-        pure { f with q := { f.q with candNumber := some new, protoNumbers := some newPs } }
-  else if f.type == "protocluster" || f.type == "proto_core" then do
+      match dictGet rn.cands n with
+      | .error e => .error e
+      | .ok new =>
+        match f.q.protoNumbers with
+        | none => .error "KeyError"
+        | some ps =>
+          match mapE (dictGet rn.protos) ps with
+          | .error e => .error e
+          | .ok newPs => .ok { f with q := { f.q with candNumber := some new, protoNumbers := some newPs } }
+  else if f.type == "protocluster" || f.type == "proto_core" then
     match f.q.protoNumber with
-    | none => throw "KeyError"
+    | none => .error "KeyError"
     | some n =>
-      let p ← dictGet (protoDict rd) n
-      let new ← dictGet rn.protos n
-      adjustProtocluster f p rd new L
-  else if f.type == "subregion" then do
+      match dictGet (protoDict rd) n with
+      | .error e => .error e
+      | .ok p =>
+        match dictGet rn.protos n with
+        | .error e => .error e
+        | .ok new => adjustProtocluster f p rd new L
+  else if f.type == "subregion" then
     match f.q.subNumber with
-    | none => throw "KeyError"
+    | none => .error "KeyError"
     | some n =>
-      let new ← dictGet rn.subs n
-      pure { f with q := { f.q with subNumber := some new } }
-  else if f.type == "CDS_motif" then do
-    pure { f with q := (← adjustMotif f.q rd L) }
-  else pure f
+      match dictGet rn.subs n with
+      | .error e => .error e
+      | .ok new => .ok { f with q := { f.q with subNumber := some new } }
+  else if f.type == "CDS_motif" then
+    match adjustMotif f.q rd L with
+    | .error e => .error e
+    | .ok q => .ok { f with q := q }
+  else .ok f
 
 /-- `_adjust_features` -/
 def adjustFeatures (rd : RegionData) (L : Int) (ws : List Working) : E (List Working) :=
